@@ -149,7 +149,7 @@ class SecNode:
                     # creation has failed already once, do not try again
                     return None
                 cls = classname
-            if not issubclass(cls, Module):
+            if isinstance(cls, type) and not issubclass(cls, Module):
                 self.errors.append(f'{cls.__name__} is not a Module')
                 return None
         except Exception as e:
